@@ -84,8 +84,16 @@ def wire (w : Wire) (buf : Bytes) (qs : List UInt8) (o : Obs) : Bool :=
 def mutOK (o : Obs) : Bool := remarshalOK o
 
 /-- known finding `c03_reserved_id` (DESIGN §7 row 2): a well-formed one-byte block that contains
-    the reserved id 15 -/
-def reservedRegion (w : Wire) : Bool := w.WF && w.reserved
+    the reserved id 15 with at least one block byte after it (when the id-15 byte is the very last
+    byte of the block nothing is left unread and the offset comes out right) -/
+def reservedRegion (w : Wire) : Bool := w.WF && decide (0 < w.ignored)
+
+/-- known finding `c03_twobyte_appbits`: a well-formed two-byte block whose appbits are not zero
+    (RFC 8285 §4.3: MUST be ignored by the receiver; the library compares the profile with 0x1000) -/
+def appbitsRegion (w : Wire) : Bool := w.WF && w.appbits
+
+/-- the hypotheses of the `_partial` theorems -/
+def wireWF (w : Wire) : Bool := w.WF && w.ignored == 0 && !w.appbits
 
 /-! ### standalone views (kind `c03.view`) -/
 
@@ -120,8 +128,8 @@ def modelView (i : ViewIn) : ViewObs :=
   | r => { unm := r.coarse, ids := .err .other, gets := [], marshal := .err .other, size := .err .other, to := [] }
 
 def formMatches : ViewKind → ExtBlock → Bool
-  | .oneByte, .oneByte _ => true
-  | .twoByte, .twoByte _ => true
+  | .oneByte, .oneByte _ _ => true
+  | .twoByte, .twoByte _ _ => true
   | .raw, .legacy _ _ => true
   | _, _ => false
 
@@ -153,7 +161,13 @@ def viewOK (k : ViewKind) (b : ExtBlock) (bytes : Bytes) (queries : List UInt8) 
 
 def viewWF (i : ViewIn) : Bool :=
   match i.block with
-  | some b => formMatches i.kind b && b.WF
+  | some b => formMatches i.kind b && b.WF && !b.appbits
+  | none => false
+
+/-- the appbits finding seen through the two-byte view: it refuses the block -/
+def viewAppbitsRegion (i : ViewIn) : Bool :=
+  match i.block with
+  | some b => formMatches i.kind b && b.WF && b.appbits
   | none => false
 
 /-- `c03.view`: demanded only of a well-formed block seen through the view of its own form -/
